@@ -7,6 +7,8 @@ import (
 	"io"
 	"net"
 	"os"
+	"sync"
+	"sync/atomic"
 	"time"
 
 	"github.com/database64128/shadowsocks-go/conn"
@@ -24,6 +26,8 @@ type Conn struct {
 	FailWrite int
 	FailKeep  int
 	failed    bool
+	// write deadline (net.Conn semantics: a deadline in the past makes writes fail)
+	wdl atomic.Pointer[time.Time]
 }
 
 var _ netio.Conn = (*Conn)(nil)
@@ -97,6 +101,9 @@ func (c *Conn) Read(b []byte) (int, error) {
 }
 
 func (c *Conn) Write(b []byte) (int, error) {
+	if d := c.wdl.Load(); d != nil && !d.IsZero() && d.Before(time.Now()) {
+		return 0, os.ErrDeadlineExceeded
+	}
 	if c.failed {
 		return 0, ErrSink
 	}
@@ -118,9 +125,9 @@ func (c *Conn) Close() error                       { return nil }
 func (c *Conn) CloseWrite() error                  { return nil }
 func (c *Conn) LocalAddr() net.Addr                { return nil }
 func (c *Conn) RemoteAddr() net.Addr               { return nil }
-func (c *Conn) SetDeadline(t time.Time) error      { return nil }
+func (c *Conn) SetDeadline(t time.Time) error      { c.wdl.Store(&t); return nil }
 func (c *Conn) SetReadDeadline(t time.Time) error  { return nil }
-func (c *Conn) SetWriteDeadline(t time.Time) error { return nil }
+func (c *Conn) SetWriteDeadline(t time.Time) error { c.wdl.Store(&t); return nil }
 
 // Dialer is the inner stream client handed to ss2022.StreamClient: it returns a fresh scripted Conn
 // whose first recorded write is the request.
@@ -224,4 +231,73 @@ func CutBy(sizes []int, d []byte) [][]byte {
 		out = append(out, d)
 	}
 	return out
+}
+
+// ScriptCtx is a cancelable context whose cancellation is an explicit, synchronous step of the harness
+// (no timers): it implements the AfterFunc hook of package context, so functions registered with
+// context.AfterFunc run inside Cancel, in the calling goroutine, unless they were stopped before.
+type ScriptCtx struct {
+	mu     sync.Mutex
+	done   chan struct{}
+	err    error
+	funcs  map[int]func()
+	next   int
+	dl     bool
+}
+
+// NewScriptCtx: withDeadline makes Deadline() report a (far) deadline; Cancel(context.DeadlineExceeded) is its expiry.
+func NewScriptCtx(withDeadline bool) *ScriptCtx {
+	return &ScriptCtx{done: make(chan struct{}), funcs: map[int]func(){}, dl: withDeadline}
+}
+
+func (c *ScriptCtx) Deadline() (time.Time, bool) {
+	if c.dl {
+		return time.Now().Add(24 * time.Hour), true
+	}
+	return time.Time{}, false
+}
+func (c *ScriptCtx) Done() <-chan struct{} { return c.done }
+func (c *ScriptCtx) Err() error {
+	c.mu.Lock()
+	defer c.mu.Unlock()
+	return c.err
+}
+func (c *ScriptCtx) Value(any) any { return nil }
+
+// AfterFunc is the hook context.AfterFunc looks for.
+func (c *ScriptCtx) AfterFunc(f func()) func() bool {
+	c.mu.Lock()
+	defer c.mu.Unlock()
+	if c.err != nil {
+		go f()
+		return func() bool { return false }
+	}
+	id := c.next
+	c.next++
+	c.funcs[id] = f
+	return func() bool {
+		c.mu.Lock()
+		defer c.mu.Unlock()
+		_, ok := c.funcs[id]
+		delete(c.funcs, id)
+		return ok
+	}
+}
+
+// Cancel ends the context with err and runs the registered functions; it reports how many ran.
+func (c *ScriptCtx) Cancel(err error) int {
+	c.mu.Lock()
+	if c.err != nil {
+		c.mu.Unlock()
+		return 0
+	}
+	c.err = err
+	close(c.done)
+	fs := c.funcs
+	c.funcs = map[int]func(){}
+	c.mu.Unlock()
+	for _, f := range fs {
+		f()
+	}
+	return len(fs)
 }
